@@ -622,6 +622,74 @@ def c07(obs):
     return v
 
 
+def c09(obs):
+    """combined source maps: an independent composition of the decoded outer and inner maps"""
+    tree = obs.get('tree')
+    if tree is None or tree.get('kind') != 'sms' or tree.get('inner_map') is None: return []
+    v = []
+    Mo, Mi = tree['map'], tree['inner_map']
+    inner_name = tree.get('name', 'x.js')
+    outer = map_segs(Mo)            # file names with the outer sourceRoot applied
+    inner = map_segs(Mi)
+    remove = bool(tree.get('remove_original_source'))
+    orig_text = tree.get('original_source')
+    if orig_text is None:
+        srcs = Mo.get('sources', [])
+        if inner_name in srcs and srcs.index(inner_name) < len(Mo.get('sourcesContent') or []): orig_text = Mo['sourcesContent'][srcs.index(inner_name)]
+    olines = split_lines(orig_text) if orig_text is not None else None
+    inner_contents = {with_root(Mi.get('sourceRoot'), n): ((Mi.get('sourcesContent') or [])[i] if i < len(Mi.get('sourcesContent') or []) else None) for i, n in enumerate(Mi.get('sources', []))}
+    outer_contents = {with_root(Mo.get('sourceRoot'), n): ((Mo.get('sourcesContent') or [])[i] if i < len(Mo.get('sourcesContent') or []) else None) for i, n in enumerate(Mo.get('sources', []))}
+    for k in ('c1f0', 'c1f1'):
+        s = obs['streams'].get(k)
+        if s is None: continue
+        _, srcs_decl, _ = tables_of(s['events'])
+        st = stream_attr(s)
+        for (l, c, got, _len) in st:
+            o = lookup(outer, l, c)
+            if o is None:
+                if got is not None: v.append(('C09', '%s: chunk at (%d,%d) is mapped to %r although the outer map leaves it unmapped' % (k, l, c, got)))
+                continue
+            if o[0] != with_root(Mo.get('sourceRoot'), inner_name) and o[0] != inner_name:
+                if got != o: v.append(('C09', '%s: chunk at (%d,%d): an outer segment into another source %r must pass through unchanged, got %r' % (k, l, c, o, got)))
+                continue
+            # into the inner source at (o[1], o[2])
+            cand = [sg for sg in inner if sg[0] == o[1] and sg[1] <= o[2]]
+            isg = max(cand, key=lambda sg: sg[1]) if cand else None
+            if isg is None or isg[2] is None:
+                exp = None if remove else (o[0], o[1], o[2])
+                g3 = None if got is None else got[:3]
+                if g3 != exp: v.append(('C09', '%s: chunk at (%d,%d): no inner mapping at %r -> expected %r, got %r' % (k, l, c, o[:3], exp, got)))
+                continue
+            ia = isg[2]
+            if got is None or got[0] != ia[0] or got[1] != ia[1] or not (ia[2] <= got[2] <= ia[2] + (o[2] - isg[1])):
+                v.append(('C09', '%s: chunk at (%d,%d): outer %r composes with inner segment %r -> file %r line %d column in [%d,%d], got %r' % (k, l, c, o[:3], isg, ia[0], ia[1], ia[2], ia[2] + (o[2] - isg[1]), got)))
+                continue
+            # names: inner name, else outer name only if it matches the original text, else none
+            if got[3] is not None:
+                if ia[3] is not None:
+                    if got[3] != ia[3]: v.append(('C09', '%s: chunk at (%d,%d): name %r, the inner segment has name %r' % (k, l, c, got[3], ia[3])))
+                elif o[3] is not None and got[3] == o[3]:
+                    content = inner_contents.get(ia[0])
+                    if content is None or not content_matches(content, got[1], got[2], got[3]):
+                        v.append(('C09', '%s: chunk at (%d,%d): outer name %r is used although the original text does not match it' % (k, l, c, got[3])))
+                else:
+                    v.append(('C09', '%s: chunk at (%d,%d): name %r comes neither from the inner segment nor from the outer one' % (k, l, c, got[3])))
+        # every reported file carries the matching content
+        used = {a[0] for (_, _, a, _) in st if a is not None}
+        for i, (name, content) in srcs_decl.items():
+            if name not in used: continue
+            if name in inner_contents and name != inner_name:
+                want = inner_contents[name]
+            elif name == inner_name or name == with_root(Mo.get('sourceRoot'), inner_name):
+                want = orig_text
+            else:
+                want = outer_contents.get(name)
+            if want is not None and content != want:
+                v.append(('C09', '%s: file %r is announced with content %r, expected %r' % (k, name, content, want)))
+    return v
+
+
+ALL['C09'] = c09
 ALL['C07'] = c07
 ALL['C08'] = c08
 ALL['C05'] = c05
